@@ -20,13 +20,11 @@ rc, out = C.coq_build(targets, timeout=7200)
 print(out[-3000:])
 if rc != 0:
     bad.append("coq")
-rc, out, _ = C.cargo_build(repo, sorted({c["bin"] for c in cfgs}), timeout=7200)
-print(out[-3000:])
-if rc != 0:
-    # fall back to one binary at a time so one broken harness does not take the others down
-    for c in cfgs:
-        rc1, out1, _ = C.cargo_build(repo, [c["bin"]], timeout=7200)
-        if rc1 != 0:
-            bad.append(c["id"]); print(out1[-1500:])
+# one binary at a time, each with exactly the features its check will use (so the
+# check's own cargo invocation is a no-op), and so that one broken harness does not take the others down
+for c in cfgs:
+    rc1, out1, _ = C.cargo_build(repo, [c["bin"]], timeout=7200, features=C.features_of(c))
+    if rc1 != 0:
+        bad.append(c["id"]); print(out1[-1500:])
 print("setup done; problems: %s" % (bad or "none"))
 sys.exit(0)
